@@ -72,7 +72,7 @@ def op_strategies(set_funcs=SET_FUNCS, list_funcs=LIST_FUNCS, symbols=False, loa
             fields["arg"] = st.booleans()
         ops["list." + f] = progs.op("list", **fields)
     if new:
-        ops["new"] = progs.op("new", k=st.sampled_from(forest.KINDS), p=par, cs=cs, ck=st.integers(0, 2))
+        ops["new"] = progs.op("new", k=st.sampled_from(forest.KINDS), p=par, cs=cs, ck=st.integers(0, 2), shape=st.integers(0, 3))
     if load:
         ops["load"] = progs.op("load", i=st.integers(0, 4))
     if edits:
